@@ -965,7 +965,17 @@ struct equal_n_fn<pixel<T, CS> const*, pixel<T, CS> const*>
     BOOST_FORCEINLINE
     bool operator()(pixel<T, CS> const* i1, std::ptrdiff_t n, pixel<T, CS> const* i2) const
     {
+        return apply(i1, n, i2, std::is_integral<T>());
+    }
+private:
+    static bool apply(pixel<T, CS> const* i1, std::ptrdiff_t n, pixel<T, CS> const* i2, std::true_type)
+    {
         return memcmp(i1, i2, n * sizeof(pixel<T, CS>)) == 0;
+    }
+    // floating point channels are not bitwise comparable (+0.0 == -0.0, NaN != NaN)
+    static bool apply(pixel<T, CS> const* i1, std::ptrdiff_t n, pixel<T, CS> const* i2, std::false_type)
+    {
+        return std::equal(i1, i1 + n, i2);
     }
 };
 
@@ -983,6 +993,10 @@ struct equal_n_fn<planar_pixel_iterator<IC, CS>, planar_pixel_iterator<IC, CS>>
     BOOST_FORCEINLINE
     bool operator()(planar_pixel_iterator<IC, CS> const i1, std::ptrdiff_t n, planar_pixel_iterator<IC, CS> const i2) const
     {
+        // floating point channels are not bitwise comparable (+0.0 == -0.0, NaN != NaN)
+        if (!std::is_integral<typename std::iterator_traits<IC>::value_type>::value)
+            return std::equal(i1, i1 + n, i2);
+
         // FIXME: ptrdiff_t vs size_t
         std::ptrdiff_t const byte_size = n * sizeof(typename std::iterator_traits<IC>::value_type);
         for (std::ptrdiff_t i = 0; i < mp11::mp_size<CS>::value; ++i)
